@@ -25,7 +25,7 @@ def main():
     if os.path.isdir(wt):
         sh('git checkout -- .', wt)
         rc0, o0 = sh('/venv/bin/python %s' % demo, wt, env)
-        rca, oa = sh('git apply %s' % patch, wt)
+        rca, oa = sh('git apply %s || git apply -3 %s' % (patch, patch), wt)
         rc1, o1 = sh('/venv/bin/python %s' % demo, wt, env)
         rct, ot = sh('/venv/bin/python -m pytest -q -p no:cacheprovider -x -n 8 tests 2>&1 | tail -2', wt)
         sh('git checkout -- .', wt)
@@ -36,7 +36,9 @@ def main():
     # which concurrently running checks import — is never modified
     rc, o = sh('git apply %s' % patch, wt)
     if rc != 0:
-        print('patch does not apply:', o); return 2
+        rc, o = sh('git apply -3 %s' % patch, wt)      # written against an earlier tree
+        if rc != 0 or 'with conflicts' in o:
+            print('patch does not apply:', o[-300:]); sh('git checkout -- .', wt); sh('git reset -q --hard', wt); return 2
     env2 = dict(os.environ, VERIF_REPO=wt, VERIF_EVIDENCE_DIR='/tmp/seed/evidence')
     try:
         for p in props:
@@ -46,6 +48,7 @@ def main():
             meta['ran'].append({'check': p, 'exit': rc, 'lines': lines})
     finally:
         sh('git checkout -- .', wt)
+        sh('git reset -q --hard', wt)
     dst = '/verif/seeded/%s_%s' % (sid, os.environ.get('SEED_IDX') or idx)
     os.makedirs(dst, exist_ok=True)
     shutil.copy(patch, dst + '/patch.diff')
